@@ -122,19 +122,7 @@ func init() {
 	extend("C38", func(r *Run) {
 		r.Rule("C38.key-codec", "the wallet public key is written and read with the matching fixed-width codec", 2)
 		r.Rule("C38.no-partial-load", "a membership is handed on only when its file was read and decoded without error", 1)
-		if fn := r.MustFn("C38.key-codec", "pkg/tbtc", "marshalPublicKey"); fn != nil {
-			ok := false
-			for _, p := range SuccessReturns(fn) {
-				d := Desc(RetResults(p.Ret)[0])
-				ok = d == "call:crypto/elliptic.Marshal(*global:pkg/tecdsa.Curve, P0.X, P0.Y)" || d == "call:crypto/elliptic.Marshal(P0.Curve, P0.X, P0.Y)"
-			}
-			r.Cond(ok, "C38.key-codec", FnName(fn), fn.Pos(), "elliptic.Marshal(tecdsa.Curve, X, Y) (fixed-width uncompressed encoding)")
-		}
-		if fn := r.MustFn("C38.key-codec", "pkg/tbtc", "unmarshalPublicKey"); fn != nil {
-			cs := Sites(fn, `^crypto/elliptic\.Unmarshal$`, false)
-			ok := len(cs) == 1 && Desc(cs[0].Common().Args[0]) == "*global:pkg/tecdsa.Curve" && Desc(cs[0].Common().Args[1]) == "P0"
-			r.Cond(ok, "C38.key-codec", FnName(fn), fn.Pos(), "elliptic.Unmarshal(tecdsa.Curve, bytes): the inverse of the writer")
-		}
+		keyCodecRule(r, "C38.key-codec")
 		if fn := r.MustFn("C38.no-partial-load", "pkg/beacon/registry", "persistentStorage.readAll"); fn != nil {
 			n := 0
 			for _, a := range fn.AnonFuncs {
@@ -215,4 +203,22 @@ func init() {
 	})
 	witness(Witness{Prop: "C42", Name: "lock-status-read-early", File: "pkg/sortition/sortition.go",
 		Old: "\tif isOperatorInPool {\n\t\tlogger.Info(\"operator is in the sortition pool\")\n", New: "\tisLockedEarly, err := chain.IsPoolLocked()\n\tif err != nil || isLockedEarly {\n\t\treturn err\n\t}\n\tif isOperatorInPool {\n\t\tlogger.Info(\"operator is in the sortition pool\")\n", Rule: "C42.fresh-view"})
+}
+
+// keyCodecRule: the wallet public key is written with elliptic.Marshal and read
+// with elliptic.Unmarshal on the same curve (fixed-width, mutually inverse).
+func keyCodecRule(r *Run, rule string) {
+	if fn := r.MustFn(rule, "pkg/tbtc", "marshalPublicKey"); fn != nil {
+		ok := false
+		for _, p := range SuccessReturns(fn) {
+			d := Desc(RetResults(p.Ret)[0])
+			ok = d == "call:crypto/elliptic.Marshal(*global:pkg/tecdsa.Curve, P0.X, P0.Y)" || d == "call:crypto/elliptic.Marshal(P0.Curve, P0.X, P0.Y)"
+		}
+		r.Cond(ok, rule, FnName(fn), fn.Pos(), "elliptic.Marshal(tecdsa.Curve, X, Y) (fixed-width uncompressed encoding)")
+	}
+	if fn := r.MustFn(rule, "pkg/tbtc", "unmarshalPublicKey"); fn != nil {
+		cs := Sites(fn, `^crypto/elliptic\.Unmarshal$`, false)
+		ok := len(cs) == 1 && Desc(cs[0].Common().Args[0]) == "*global:pkg/tecdsa.Curve" && Desc(cs[0].Common().Args[1]) == "P0"
+		r.Cond(ok, rule, FnName(fn), fn.Pos(), "elliptic.Unmarshal(tecdsa.Curve, bytes): the inverse of the writer")
+	}
 }
